@@ -48,19 +48,33 @@ class Site(object):
     def lookup(self, host, port, path):
         return self.by_addr.get((host, port, path))
 
+    def robots_owner(self, olabel, path):
+        """The origin whose robots.txt a request for (origin, path) serves, or None: /robots.txt of the origin itself
+        (unless the site declares a document there: with --sitemaps it is an item like any other), or the path another
+        origin's control file is redirected to."""
+        for o, r in self.robots.items():
+            via = r.get('via_redirect') if r.get('kind') == 'rules' else None
+            if via and via.get('host', o) == olabel and via['path'] == path:
+                return o
+        if path == '/robots.txt':
+            host, _, port = olabel.partition(':')
+            if self.lookup(host, int(port or 80), path) is None:
+                return olabel
+        return None
+
     def respond(self, host, port, path, n_hit):
         """Return (cls, bytes)."""
         olabel = host if port == 80 else '%s:%d' % (host, port)
-        r0 = self.robots.get(olabel, {'kind': 'missing'})
-        via = r0.get('via_redirect') if r0.get('kind') == 'rules' else None
-        if via and path == '/robots.txt':
-            # the control file is reached through a redirect whose own body is longer than the file itself
-            filler = ('<html><body>moved ' + 'x' * via.get('body_len', 600) + via.get('tail', '') + '</body></html>').encode()
-            return 'robots30x', _http(301, 'Moved', filler, 'text/html', [('Location', 'http://%s%s' % (olabel, via['path']))])
-        if self.lookup(host, port, path) is not None and not via:
-            pass        # the site declares a document at this path (with --sitemaps /robots.txt is an item like any other)
-        elif path == '/robots.txt' or (via and path == via['path']):
-            r = r0
+        owner = self.robots_owner(olabel, path)
+        if owner is not None:
+            r = self.robots.get(owner, {'kind': 'missing'})
+            via = r.get('via_redirect') if r.get('kind') == 'rules' else None
+            if via and owner == olabel and path == '/robots.txt':
+                # the control file is reached through a redirect (to another path, possibly of another origin) whose own
+                # body is longer than the file itself
+                filler = ('<html><body>moved ' + 'x' * via.get('body_len', 600) + via.get('tail', '') + '</body></html>').encode()
+                return 'robots30x', _http(301, 'Moved', filler, 'text/html',
+                                          [('Location', 'http://%s%s' % (via.get('host', olabel), via['path']))])
             k = r['kind']
             if k == 'rules':
                 body = 'User-agent: %s\n' % r.get('agent', '*')
@@ -71,7 +85,7 @@ class Site(object):
                 body += r.get('extra', '')
                 if r.get('no_newline'):
                     body = body.rstrip('\n')
-                return 'robots200', _http(200, 'OK', body.encode(), 'text/plain')
+                return 'robots200', _http(200, 'OK', body.encode(r.get('encoding', 'utf-8')), 'text/plain')
             if k == 'missing':
                 return 'robots404', _http(404, 'Not Found', b'no', 'text/plain')
             if k == 'error500':
@@ -228,16 +242,22 @@ class CrawlRun(object):
         if self.nreq > self.max_requests:
             raise Runaway('requests')
         d = self.site.lookup(host, port, path)
-        rcfg = self.site.robots.get(host if port == 80 else '%s:%d' % (host, port), {})
-        is_robots = path == '/robots.txt' or (rcfg.get('via_redirect') or {}).get('path') == path
-        if d is not None and not rcfg.get('via_redirect'):
-            is_robots = False       # a declared document (with --sitemaps /robots.txt is fetched as an item)
-        kind = 'robots' if is_robots else ('page' if d is not None else 'other')
+        owner = self.site.robots_owner(host if port == 80 else '%s:%d' % (host, port), path)
+        kind = 'robots' if owner is not None else ('page' if d is not None else 'other')
         u = d['id'] if d is not None else 0
         self.pending.append((self.nreq, ep, u, host, port, path, kind))
         item = self.task_item.get(asyncio.current_task(), 0)
-        self.log(e='req', n=self.nreq, u=u, kind=kind, host=host or '', h=self.hidx(host, port), port=port, path=path,
+        self.log(e='req', n=self.nreq, u=u, kind=kind, host=host or '', h=self.hidx_of(host, port, path), port=port, path=path,
                  conn_host=self.ip_host(ep.address[0]), item=item)
+
+    def hidx_of(self, host, port, path):
+        """Origin index an exchange is accounted to: for a robots.txt fetch the origin whose control file it is (which
+        differs from the origin asked when the file was redirected to another origin)."""
+        owner = self.site.robots_owner(host if port == 80 else '%s:%d' % (host, port), path) if host else None
+        if owner is not None:
+            h, _, p = owner.partition(':')
+            return self.hidx(h, int(p or 80))
+        return self.hidx(host, port)
 
     def hidx(self, host, port=80):
         """Index of the origin (host name + port) among the site's origins (0 = unknown)."""
@@ -264,7 +284,7 @@ class CrawlRun(object):
         self.site.hits[key] = hit + 1
         cls, data = self.site.respond(host, port, path, hit)
         self.answer_log.append(n)
-        self.log(e='resp', n=n, u=u, cls=cls, h=self.hidx(host, port))
+        self.log(e='resp', n=n, u=u, cls=cls, h=self.hidx_of(host, port, path))
         if data is not None:
             self.wire['http://%s%s%s' % (host, '' if port == 80 else ':%d' % port, path)] = data
         if data is None:
